@@ -9,14 +9,28 @@ REPLAY_SRC = os.path.join(VERIF, "replay")
 REPLAY_TARGET = os.path.join(CACHE, "replay-target")
 
 
+_replayer_built = {}
+
+
 def build_replayer():
     import shutil
-    shutil.copyfile(os.path.join(REPO, "Cargo.lock"), os.path.join(REPLAY_SRC, "Cargo.lock"))
+    if "ok" in _replayer_built:
+        return _replayer_built["ok"]
+    src = REPLAY_SRC
+    if REPO != "/repo":
+        # development aid (VERIF_REPO): a private copy of the replayer crate pointing at that tree
+        src = os.path.join(CACHE, "replay-src")
+        shutil.rmtree(src, ignore_errors=True)
+        shutil.copytree(REPLAY_SRC, src, ignore=shutil.ignore_patterns("target"))
+        ct = open(os.path.join(src, "Cargo.toml")).read().replace('path = "/repo"', 'path = "%s"' % REPO)
+        open(os.path.join(src, "Cargo.toml"), "w").write(ct)
+    shutil.copyfile(os.path.join(REPO, "Cargo.lock"), os.path.join(src, "Cargo.lock"))
     for rel in (False, True):
         cmd = ["cargo", "build", "--offline"] + (["--release"] if rel else [])
-        rc, out = run(cmd, cwd=REPLAY_SRC, timeout=1200, env={"CARGO_TARGET_DIR": REPLAY_TARGET})
+        rc, out = run(cmd, cwd=src, timeout=1200, env={"CARGO_TARGET_DIR": REPLAY_TARGET})
         if rc != 0:
             return False, out[-1500:]
+    _replayer_built["ok"] = (True, "")
     return True, ""
 
 
@@ -84,6 +98,16 @@ def contradicts(expect, obs):
                 why.append("lexer panicked on %r" % text)
             else:
                 why += check_lex(text, obs["raw_lines"])
+        elif e[0] == "print_int_spec":
+            top = obs["cells"][0] if obs["cells"] else None
+            if top is None or top[0] != "int" or top[1] != str(e[1]):
+                why.append("the integer %d prints as %r" % (e[1], top))
+        elif e[0] == "print_bits_spec":
+            from e2.lexspec import bits_value
+            top = obs["cells"][0] if obs["cells"] else None
+            got = bits_value(top[1]) if top and top[0] == "bitstr" else None
+            if got != e[1]:
+                why.append("the bit-string %s prints as %r which reads back as %s" % (e[1], top, got))
         elif e[0] == "tokloc_spec":
             from e2.lexspec import token_location
             text = bytes.fromhex(e[2]).decode()
@@ -210,6 +234,7 @@ def e2_run(pid, tier, modules, flavours=("on", "off"), only=None, assumptions=No
     solver_s = 0.0
     queries = 0
     replays = 0
+    skipped = []
     per_flavour = {}
     seen_sig = set()
     okb = None
@@ -221,6 +246,8 @@ def e2_run(pid, tier, modules, flavours=("on", "off"), only=None, assumptions=No
             continue
         L = LemmaSet(ex, pid)
         L.pid = pid
+        if tier == "quick":
+            L.time_box_deadline = PROCESS_T0 + QUICK_TIME_BOX_S
         for mod in modules:
             mod.run(L, tier, only)
         sm = L.summary()
@@ -238,6 +265,7 @@ def e2_run(pid, tier, modules, flavours=("on", "off"), only=None, assumptions=No
             samples += L.samples[:30]
         for (lem, why) in L.undecided:
             problems.append(("%s[%s]" % (lem, fl), why))
+        skipped += ["%s[%s]" % (x, fl) for x in L.skipped]
         for ob in L.obligations:
             if ob.verdict != "violated":
                 continue
@@ -295,6 +323,7 @@ def e2_run(pid, tier, modules, flavours=("on", "off"), only=None, assumptions=No
         "summaries_used (trusted base)": sorted(summaries)[:120],
         "engine": "mirsym (MIR -> z3 %s), loop unwinding bound %d, sound by refusal" % (__import__("z3").get_version_string(), loop_bound),
         "replayed_scenarios": replays,
+        "lemmas_skipped_by_quick_time_box": skipped,
     }
     return {
         "name": "E2/mirsym", "engine": "e2",
